@@ -1,8 +1,9 @@
 """C20 — Python views of dense vectors agree with the C++ objects they wrap."""
+from translators import tr_c20
 
 PID = "C20"
 CLAIM = True
-MANIFEST_TEXT = ("Lean 4 theorems (31, all sizes/entries/indices/store states/record sizes and byte strides) about an executable model of dune-common's Python bindings "
+MANIFEST_TEXT = ("Lean 4 theorems (37, all sizes/entries/indices/store states/record sizes and byte strides) about an executable model of dune-common's Python bindings "
                  "for dense vectors: construction from list/tuple/args = first n numbers zero-filled (the binding's copy loop refines "
                  "it), the buffer constructor over a buffer_info in bytes = the same for the buffer's entries whenever NumPy calls the buffer "
                  "aligned (which the format check enforces), byte addressing ptr+j*stride hits exactly the cell a view denotes for every "
@@ -15,7 +16,17 @@ MANIFEST_TEXT = ("Lean 4 theorems (31, all sizes/entries/indices/store states/re
                  "preserve entry types and values; and, by induction over programs, a store invariant (registers name existing vectors, "
                  "FieldVector<K,n> has n cells, every view entry is an existing cell and its byte address is where that cell starts) holds after "
                  "every program of bound operations. "
-                 "Tied to the source on every run: _common (both as configured with just-in-time FieldVector classes and with "
+                 "Tied to the source on every run, first by a translator (tools/translators/tr_c20.py) that regenerates from the headers "
+                 "the index normalisation lambda (statement order, conditions, arithmetic; plus the shape of the ssize_t and pybind11::int_ "
+                 "overloads of __getitem__/__setitem__), the copy loops of the tuple/list/args constructors, copy(*args), the buffer "
+                 "constructor (checks, stride computation, bound, source index) and DynamicVector's list constructor, the string constants of "
+                 "str/repr, and the ordered list of everything the registration functions bind (78 entries incl. overload order and the "
+                 "chaining of registration functions); theorems gen_normalize_index, gen_getitem_python (the generated normalisation is "
+                 "Python's list indexing: i mod n inside [-n,n), IndexError outside, for every n and every integer i), gen_copy_loops (each "
+                 "generated loop computes the specification construct n xs), gen_buffer_ctor, gen_str_consts, gen_bindings_modelled (every "
+                 "binding is driven by named operations of the op language) are re-proved against that output, so an edited bound, condition, "
+                 "constant or a new/removed/reordered overload breaks an obligation and starts the search for a failing input. "
+                 "Second by the differential run: _common (both as configured with just-in-time FieldVector classes and with "
                  "DUNE_ENABLE_PYTHONMODULE_PRECOMPILE: FieldVector_double_0..14 from registerfvector.cc), _typeregistry and the JIT modules "
                  "(FieldVector<double,n>, TupleVector<...>, two NumPyVector algorithms) are rebuilt from the current working tree's sources "
                  "whenever any file they depend on changed, the current python/dune package is imported, and >=32000 seeded operation programs "
@@ -25,8 +36,11 @@ MANIFEST_TEXT = ("Lean 4 theorems (31, all sizes/entries/indices/store states/re
 MANIFEST_NOTE = ("Partial by nature: CPython, pybind11 (casting/overload resolution) and NumPy are exercised, not modelled; values are "
                  "integer-valued doubles |x|<=2^24; FieldVector sizes 1,2,3,4,5,6,9 just-in-time generated and 0..14 precompiled, five tuple "
                  "shapes; DynamicVector operands of unequal length are excluded (undefined in C++ as well); the dune-py cmake/make builder is "
-                 "replaced by a direct g++ call on the source text the current generator produces. No translator: the source is pybind11 "
-                 "registration glue, the model is hand-written and tied by the differential run only. "
+                 "replaced by a direct g++ call on the source text the current generator produces. The translator covers the straight-line "
+                 "lambdas and data of densevector.hh/fvector.hh/dynvector.hh and the binding lists of those plus vector.hh/tuplevector.hh; "
+                 "arithmetic operators, NumPyVector, TupleVector, string.hh join and the Python side stay hand-modelled and are tied by the "
+                 "differential run only; a rewrite of a translated lambda outside the translator's grammar (other than formatting, renaming, "
+                 "commuted operands, braces, reordered unrelated cls.def calls) is reported as a broken obligation. "
                  "Buffer layouts: contiguous, strided, reversed, columns, read-only broadcast (stride 0) and fields of packed records "
                  "(byte strides that are no multiple of the item size, unaligned entries; 16 layouts) for 10 NumPy element types incl. "
                  "non-native byte order; an unaligned buffer of doubles may be rejected by the FieldVector constructor (it is: NumPy exports "
@@ -35,14 +49,17 @@ MANIFEST_NOTE = ("Partial by nature: CPython, pybind11 (casting/overload resolut
                  "Four defects found while building the check (negative indices in __setitem__/DynamicVector, FieldVector.copy() returning "
                  "zeros, NumPyVector ignoring strides, TypeError/OverflowError instead of IndexError for indices beyond ssize_t) are repaired "
                  "by fixes/C20_*.patch (applied); the model describes the repaired code.")
-TECHNIQUE = ('Lean 4 proof (effect/invariant structure, induction over programs) over a shared-store model of the bindings + differential '
+TECHNIQUE = ('Lean 4 proof (effect/invariant structure, induction over programs) over a shared-store model of the bindings + translator for the '
+             'straight-line lambdas, constants and binding lists + differential '
              'correspondence against freshly rebuilt extension modules (two build variants) with a plain-Python shadow oracle')
-TRANSLATORS = []
+TRANSLATORS = [tr_c20.translate]
 HARNESS = dict(
     sources=["cxx_c20.cc"],
     repo_sources=[],
     sanitize=False,       # the binary only exec's the Python harness harness/c20_py.py
 )
+# replaying a corpus file is also what (re)builds the extension modules when a header changed: minutes on a loaded machine
+CORPUS_TIMEOUT = 5400
 CRASH_IS_VIOLATION = True   # an index outside [-n, n) must raise IndexError, never touch memory
 RULE = ("cases: seeded programs of 3-14 bound operations over 4 vector registers and 3 NumPy-array registers (or 2 tuple vectors and "
         "their Python-side sources): constructors from list/tuple/args of floats or ints/NumPy (contiguous, strided, reversed)/array.array/"
@@ -53,11 +70,14 @@ RULE = ("cases: seeded programs of 3-14 bound operations over 4 vector registers
         "and writes, buffer objects of 18 element types in 5 element-strided layouts and 16 packed-record layouts q<R>o<F>s<K> (byte "
         "strides 9..39, either direction, field offsets 0..12) as constructor arguments and as arrays under NumPyVector operations (both "
         "call paths; half of the new buffer objects are used by a NumPyVector at once), read-only broadcast buffers, NumPyVector "
-        "operations on (strided) views and a NumPyVector owning its array; tuple vectors by value and by "
+        "operations on (strided) views (three call paths: generated algorithm module, NumPyVector(pybind11::buffer), and reads/writes "
+        "through coefficients()/data()/the const accessors) and a NumPyVector owning its array; tuple vectors by value and by "
         "reference incl. negative/huge indices; distinct = distinct op lines; non-trivial = at least one operation was executed on the "
         "real bindings and compared with the shadow")
 ASSUMPTIONS = [
-    "the Lean model lean/DuneVerif/Model/C20.lean is hand-written; its fidelity to the bindings rests on this differential run",
+    "the Lean model lean/DuneVerif/Model/C20.lean is hand-written; its fidelity to the bindings rests on this differential run, "
+    "except for the parts tools/translators/tr_c20.py regenerates (index normalisation, constructor copy loops, buffer constructor "
+    "arithmetic, string constants, the list of bindings), which theorems gen_* prove equal to the model on every run",
     "CPython 3.11, the vendored pybind11 and NumPy 2.4 are trusted (overload resolution, implicit conversions, buffer protocol, slicing)",
     "extension modules are compiled with g++ -O1 -UNDEBUG without MPI from $VERIF_REPO's current files; JIT module sources come from the "
     "current python/dune/generator code, only the cmake/make step of dune-py is replaced by a direct compiler call",
@@ -69,7 +89,7 @@ ASSUMPTIONS = [
     "for a buffer of doubles NumPy does not call aligned the FieldVector constructor may raise ValueError or return exactly the "
     "buffer's numbers; the register is not bound in either case",
 ]
-TRUSTED = ["CPython/pybind11/NumPy, g++/libstdc++", "harness/c20_py.py (builder, executor, shadow oracle) + Driver/C20.lean parsing/printing"]
+TRUSTED = ["CPython/pybind11/NumPy, g++/libstdc++", "translator tools/translators/tr_c20.py", "harness/c20_py.py (builder, executor, shadow oracle) + Driver/C20.lean parsing/printing"]
 
 
 def batches(tier, seed):
@@ -80,7 +100,7 @@ def batches(tier, seed):
     else:
         plan = [("pre" if i % 3 == 2 else "jit", 80000) for i in range(16)]
     return [dict(args=["--seed", str(seed * 1000 + i), "--cases", str(n), "--tier", tier, "--variant", v], tag="g%d%s" % (i, v),
-                 timeout=(900 if tier == "quick" else 3000)) for i, (v, n) in enumerate(plan)]
+                 timeout=(2700 if tier == "quick" else 5400)) for i, (v, n) in enumerate(plan)]
 
 
 def search_batches(seed):
